@@ -374,13 +374,16 @@ def gen_program(rng):
     stmts = []
     for k in range(n_st):
         kind = rng.choice(['renderer', 'renderer', 'defperm', 'perm', 'session'])
-        stmts.append({'kind': kind, 'n': rng.randrange(2), 'node': rng.randrange(n_nodes)})
+        stmts.append({'kind': kind, 'n': rng.randrange(2), 'node': rng.randrange(n_nodes),
+                      'via_pkg': rng.random() < 0.25})
     nodes = [[] for _ in range(n_nodes)]
     for k, st in enumerate(stmts):
         nodes[st['node']].append(['stmt', k])
     for ch in range(1, n_nodes):
         nodes[parent[ch]].append(['inc', ch])
     for items in nodes:
+        if rng.random() < 0.3:
+            items.append(['fail'])     # a directive that raises (caught by the application), then configuration goes on
         rng.shuffle(items)
     return {'kind': 'program', 'introspection': rng.random() < 0.75, 'stmts': stmts, 'nodes': nodes, 'parent': parent}
 
@@ -414,18 +417,25 @@ def _run_program(case):
                 inc.__qualname__ = inc.__name__
                 inc.__module__ = __name__
                 cfg.include(inc)
+            elif item[0] == 'fail':
+                try:
+                    cfg.add_route('broken', None)      # ConfigurationError: pattern required
+                except Exception:
+                    pass
             else:
                 k = item[1]
                 st = stmts[k]
                 info = ('stmt', k, '', '')
+                # with_package: same include level, another Configurator object (what config.scan users get)
+                tgt = cfg.with_package('harness.c20') if st.get('via_pkg') else cfg
                 if st['kind'] == 'renderer':
-                    cfg.add_renderer('.x%d' % st['n'], factory=_Tag(k), _info=info)
+                    tgt.add_renderer('.x%d' % st['n'], factory=_Tag(k), _info=info)
                 elif st['kind'] == 'defperm':
-                    cfg.set_default_permission('dperm%d' % k, _info=info)
+                    tgt.set_default_permission('dperm%d' % k, _info=info)
                 elif st['kind'] == 'perm':
-                    cfg.add_permission('perm%d' % k)
+                    tgt.add_permission('perm%d' % k, _info=info)
                 else:
-                    cfg.set_session_factory(_Tag(k), _info=info)
+                    tgt.set_session_factory(_Tag(k), _info=info)
 
     run_node(c, 0)
     outcome = 0
@@ -450,7 +460,7 @@ def _run_program(case):
             if k is None:
                 continue
             ai = i.action_info
-            ok = 1 if stmts[k]['kind'] == 'perm' else int(getattr(ai, 'line', None) == k and getattr(ai, 'file', None) == 'stmt')
+            ok = int(getattr(ai, 'line', None) == k and getattr(ai, 'file', None) == 'stmt')
             ents.append([cn, disc, str(k), ok])
     return [outcome, sorted(ents)]
 
@@ -473,7 +483,7 @@ def _program_wire(case):
         for item in case['nodes'][node]:
             if item[0] == 'inc':
                 walk(item[1])
-            else:
+            elif item[0] == 'stmt':
                 order.append(item[1])
     walk(0)
     for k in order:
@@ -528,7 +538,7 @@ def valid(case):
                         if case['parent'][it[1]] != i:
                             return False
                         seen_inc.append(it[1])
-                    else:
+                    elif it != ['fail']:
                         return False
             return sorted(seen_st) == list(range(len(case['stmts']))) and sorted(seen_inc) == list(range(1, n)) \
                 and all(st['kind'] in KINDS and st['n'] in (0, 1) for st in case['stmts']) \
@@ -668,6 +678,10 @@ def kinds(case, obs):
     if case['kind'] == 'program':
         out = ['program', 'program:introspection-%s' % ('on' if case['introspection'] else 'off'),
                'program:nodes-%d' % len(case['nodes'])]
+        if any(st.get('via_pkg') for st in case['stmts']):
+            out.append('program:with_package-child')
+        if any(it == ['fail'] for items in case['nodes'] for it in items):
+            out.append('program:failing-directive')
         if isinstance(obs, list) and len(obs) == 2 and isinstance(obs[1], list):
             out.append('program:conflict' if obs[0] == 1 else 'program:done')
             executed = {e[2] for e in obs[1]}
